@@ -130,8 +130,7 @@ Inductive sop : Type :=
 | SCloseDealer          (* close(d.actionChan) *)
 | SRecvDealerStopped    (* <-d.stopped *)
 | SCloseBroker | SRecvBrokerStopped
-| SClosePeers (js : list nat)   (* for _, sess := range r.shutdownSessions { sess.Close() } *)
-| SClosePeer (j : nat)
+| SClosePeers                   (* for _, sess := range r.shutdownSessions { sess.Close() } *)
 | SCloseRealm | SRecvRealmStopped.
 
 Definition dealer_close_seq (fx : fixes) : list sop :=
@@ -140,10 +139,10 @@ Definition dealer_close_seq (fx : fixes) : list sop :=
 
 Definition broker_close_seq : list sop := [SCloseBroker; SRecvBrokerStopped].
 
-Definition realm_close_seq (fx : fixes) (K : nat) : list sop :=
+Definition realm_close_seq (fx : fixes) : list sop :=
   [SLock; STestClosed; SSetClosed; SSubmitKick; SRecvKick; SWgWaitHandlers; SEndRecvMeta; SRecvMetaDone]
   ++ dealer_close_seq fx ++ broker_close_seq
-  ++ (if fx_peers fx then [SClosePeers (seq 0 K)] else [])
+  ++ (if fx_peers fx then [SClosePeers] else [])
   ++ [SCloseRealm; SRecvRealmStopped; SUnlock].
 
 (** Exit path of a session handler (the goroutine started by handleSession). *)
@@ -223,8 +222,10 @@ Inductive L : Type :=
 | ClStart (k : closer_kind)
 | ClWaitCloseAll | ClStopRouter (stage : nat)
 | ClWaitRemove
-(* a straight-line run of realm.close, then continue as [k] *)
-| Run (ops : list sop) (k : L)
+(* realm.close at position [n] of [realm_close_seq] (the peers still to be
+   looked at by the loop over shutdownSessions in [js]), then continue as [k] *)
+| RunAt (n : nat) (js : list nat) (k : L)
+| RunClosePeer (j : nat) (n : nat) (js : list nat) (k : L)
 | Fin.
 
 (** ** Helpers *)
@@ -287,14 +288,19 @@ Variable scr : nat -> list msg * bool.
 (** Number of attach attempts (sessions are numbered 0 .. K-1). *)
 Variable K : nat.
 
-(** The closer's straight-line operations: exactly one action each. *)
-Definition sop_act (o : sop) (rest : list sop) (k : L) : act :=
-  let next := Run rest k in
+(** The closer's operations: [RunAt n js k] executes operation [n] of the
+    sequence.  Exactly one action each, except the loop over the shut-down
+    sessions, which reads one session per step. *)
+Definition unlock_pos : nat := length (realm_close_seq fx) - 1.
+
+Definition sop_act (o : sop) (n : nat) (js : list nat) (k : L) : act :=
+  let next := RunAt (S n) js k in
   match o with
   | SLock => ALock LClose next
   | SUnlock => AUnlock LClose next
   | STestClosed =>
-      ARead VRealmClosed (fun v => if N.eqb v 0 then next else Run [SUnlock] k)
+      (* already closed: unlock and return *)
+      ARead VRealmClosed (fun v => if N.eqb v 0 then next else RunAt unlock_pos js k)
   | SSetClosed => AWrite VRealmClosed 1%N next
   | SSubmitKick => ASend CRealmAct MKick next
   | SRecvKick => ARecv CReplyKick (fun _ => next)
@@ -308,12 +314,12 @@ Definition sop_act (o : sop) (rest : list sop) (k : L) : act :=
   | SRecvDealerStopped => ARecv CDealerStopped (fun _ => next)
   | SCloseBroker => AClose CBrokerAct next
   | SRecvBrokerStopped => ARecv CBrokerStopped (fun _ => next)
-  | SClosePeers [] => ATau next
-  | SClosePeers (j :: js) =>
-      ARead (VShut j) (fun v =>
-        if N.eqb v 1 then Run (SClosePeer j :: SClosePeers js :: rest) k
-        else Run (SClosePeers js :: rest) k)
-  | SClosePeer j => AClose (CQueue j) next
+  | SClosePeers =>
+      match js with
+      | [] => ATau next
+      | j :: r =>
+          ARead (VShut j) (fun v => if N.eqb v 1 then RunClosePeer j n r k else RunAt n r k)
+      end
   | SCloseRealm => AClose CRealmAct next
   | SRecvRealmStopped => ARecv CRealmStopped (fun _ => next)
   end.
@@ -389,7 +395,7 @@ Definition router_got (m : msg) : act :=
   match m with
   | MLookup j =>
       ARead VRouterClosed (fun v => RtLookupReply j (N.eqb v 0))
-  | MCloseAll => AWrite VRouterClosed 1%N (Run (realm_close_seq fx K) RtCloseReply)
+  | MCloseAll => AWrite VRouterClosed 1%N (RunAt 0 (seq 0 K) RtCloseReply)
   | MRemoveLookup => AWrite VRouterClosed 1%N RtRemoveReply
   | _ => ATau RtIdle
   end.
@@ -526,10 +532,14 @@ Definition code (l : L) : act :=
   | ClWaitRemove =>
       (* RemoveRealm closes the realm in the caller's goroutine; the model then
          also closes the router, so that every run ends with all goroutines gone *)
-      ARecv CReplyRemove (fun _ => Run (realm_close_seq fx K) (ClStart ByClose))
+      ARecv CReplyRemove (fun _ => RunAt 0 (seq 0 K) (ClStart ByClose))
   (* ---- straight-line runs ---- *)
-  | Run (o :: r) k => sop_act o r k
-  | Run [] k => ATau k
+  | RunAt n js k =>
+      match nth_error (realm_close_seq fx) n with
+      | Some o => sop_act o n js k
+      | None => ATau k
+      end
+  | RunClosePeer j n js k => AClose (CQueue j) (RunAt n js k)
   | Fin => ADone
   end.
 
